@@ -1352,7 +1352,55 @@ pub fn c19(ctx: &mut Ctx, tier: &str, _seed: u64) {
             let r2: &$P = s.as_slice().as_ref();
             outs.push(("AsRef<Path> for [u8]", r2.as_bytes().to_vec()));
             outs.push(("clone", p.to_path_buf().clone().into_vec()));
+            let cow_raw = Cow::<[u8]>::Borrowed(s.as_slice());
+            let r3: &$P = cow_raw.as_ref();
+            outs.push(("AsRef<Path> for Cow<[u8]>", r3.as_bytes().to_vec()));
+            let r4: &$P = s.as_ref();
+            outs.push(("AsRef<Path> for Vec<u8>", r4.as_bytes().to_vec()));
+            let r5: &$P = p.as_ref();
+            outs.push(("AsRef<Path> for Path", r5.as_bytes().to_vec()));
+            let owned_pb = p.to_path_buf();
+            let r6: &$P = owned_pb.as_ref();
+            outs.push(("AsRef<Path> for PathBuf", r6.as_bytes().to_vec()));
+            let r7: &[u8] = owned_pb.as_ref();
+            outs.push(("AsRef<[u8]> for PathBuf", r7.to_vec()));
+            let cow3: Cow<$P> = Cow::from(&owned_pb);
+            outs.push(("Cow from &PathBuf", cow3.as_bytes().to_vec()));
+            outs.push(("PathBuf from Box<Path>", <$B>::from(Box::<$P>::from(p)).into_vec()));
+            outs.push(("to_owned", p.to_owned().into_vec()));
+            // iterating a reference is `iter()`
+            let via_ref: Vec<Vec<u8>> = (&*p).into_iter().map(|c| c.to_vec()).collect();
+            let via_ref2: Vec<Vec<u8>> = (&owned_pb).into_iter().map(|c| c.to_vec()).collect();
+            let via_iter: Vec<Vec<u8>> = p.iter().map(|c| c.to_vec()).collect();
+            if via_ref != via_iter || via_ref2 != via_iter {
+                $ctx.fail("into-iter-is-iter", None, format!("comps {} {}", $e, hex(s)), String::new());
+            }
+            // the iterators and components as byte / path references
+            {
+                let mut it = p.components();
+                let whole: &[u8] = it.as_ref();
+                let wholep: &$P = it.as_ref();
+                let i2 = p.iter();
+                let iw: &[u8] = i2.as_ref();
+                let iwp: &$P = i2.as_ref();
+                let mut ok = whole == s.as_slice() && wholep.as_bytes() == s.as_slice() && iw == s.as_slice() && iwp.as_bytes() == s.as_slice();
+                if let Some(c) = it.next() {
+                    let cb: &[u8] = c.as_ref();
+                    let cp: &$P = c.as_ref();
+                    ok = ok && cb == c.as_bytes() && cp.as_bytes() == c.as_bytes();
+                    let rest: &[u8] = it.as_ref();
+                    ok = ok && rest == it.as_bytes();
+                }
+                if !ok {
+                    $ctx.fail("iterator-asref", None, format!("comps {} {}", $e, hex(s)), String::new());
+                }
+            }
             if let Ok(st) = std::str::from_utf8(s) {
+                let r8: &$P = st.as_ref();
+                outs.push(("AsRef<Path> for str", r8.as_bytes().to_vec()));
+                let owned_st = st.to_string();
+                let r9: &$P = owned_st.as_ref();
+                outs.push(("AsRef<Path> for String", r9.as_bytes().to_vec()));
                 outs.push(("PathBuf::from(String)", <$B>::from(st.to_string()).into_vec()));
                 outs.push(("FromStr", st.parse::<$B>().unwrap().into_vec()));
                 outs.push(("PathBuf::from(&str)", <$B>::from(st).into_vec()));
@@ -1397,7 +1445,72 @@ pub fn c19(ctx: &mut Ctx, tier: &str, _seed: u64) {
                 ("From<String>", Utf8UnixPathBuf::from(st.to_string()).into_string()),
                 ("FromStr", st.parse::<Utf8UnixPathBuf>().unwrap().into_string()),
                 ("into_boxed_path", p.to_path_buf().into_boxed_path().into_path_buf().into_string()),
+                ("From<&str>", Utf8UnixPathBuf::from(st).into_string()),
+                ("Rc from PathBuf", Rc::<Utf8UnixPath>::from(p.to_path_buf()).as_str().to_string()),
+                ("Arc from PathBuf", Arc::<Utf8UnixPath>::from(p.to_path_buf()).as_str().to_string()),
+                ("Box from PathBuf", Box::<Utf8UnixPath>::from(p.to_path_buf()).as_str().to_string()),
+                ("Box from Cow", Box::<Utf8UnixPath>::from(Cow::<Utf8UnixPath>::from(p.to_path_buf())).as_str().to_string()),
+                ("Cow from PathBuf", Cow::<Utf8UnixPath>::from(p.to_path_buf()).as_str().to_string()),
+                ("Cow from &PathBuf", Cow::<Utf8UnixPath>::from(&p.to_path_buf()).as_str().to_string()),
+                ("PathBuf from Cow", Utf8UnixPathBuf::from(Cow::<Utf8UnixPath>::from(p)).into_string()),
+                ("PathBuf from Box", Utf8UnixPathBuf::from(Box::<Utf8UnixPath>::from(p)).into_string()),
+                ("String from PathBuf", String::from(p.to_path_buf())),
+                ("AsRef<str>", { let r: &str = p.as_ref(); r.to_string() }),
+                ("AsRef<[u8]>", { let r: &[u8] = p.as_ref(); String::from_utf8_lossy(r).into_owned() }),
+                ("AsRef<Utf8Path> for str", { let r: &Utf8WindowsPath = st.as_ref(); r.as_str().to_string() }),
+                ("AsRef<Utf8Path> for String", { let o = st.to_string(); let r: &Utf8UnixPath = o.as_ref(); r.as_str().to_string() }),
+                ("AsRef<Utf8Path> for Cow<str>", { let c = Cow::<str>::Borrowed(st); let r: &Utf8UnixPath = c.as_ref(); r.as_str().to_string() }),
+                ("AsRef<Utf8Path> for PathBuf", { let o = p.to_path_buf(); let r: &Utf8UnixPath = o.as_ref(); r.as_str().to_string() }),
+                ("AsRef<str> for PathBuf", { let o = p.to_path_buf(); let r: &str = o.as_ref(); r.to_string() }),
+                ("AsRef<[u8]> for PathBuf", { let o = p.to_path_buf(); let r: &[u8] = o.as_ref(); String::from_utf8_lossy(r).into_owned() }),
+                ("iter AsRef<str>", { let i = p.iter(); let r: &str = i.as_ref(); r.to_string() }),
+                ("iter AsRef<[u8]>", { let i = p.iter(); let r: &[u8] = i.as_ref(); String::from_utf8_lossy(r).into_owned() }),
+                ("iter AsRef<Utf8Path>", { let i = p.iter(); let r: &Utf8UnixPath = i.as_ref(); r.as_str().to_string() }),
+                ("components AsRef<str>", { let i = p.components(); let r: &str = i.as_ref(); r.to_string() }),
+                ("components AsRef<[u8]>", { let i = p.components(); let r: &[u8] = i.as_ref(); String::from_utf8_lossy(r).into_owned() }),
+                ("components AsRef<Utf8Path>", { let i = p.components(); let r: &Utf8UnixPath = i.as_ref(); r.as_str().to_string() }),
+                ("windows components AsRef<str>", { let i = Utf8WindowsPath::new(st).components(); let r: &str = i.as_ref(); r.to_string() }),
+                ("windows components AsRef<Utf8Path>", { let i = Utf8WindowsPath::new(st).components(); let r: &Utf8WindowsPath = i.as_ref(); r.as_str().to_string() }),
+                ("typed AsRef<str>", { let t = Utf8TypedPath::derive(st); let r: &str = t.as_ref(); r.to_string() }),
+                ("typed buf AsRef<str>", { let t = Utf8TypedPathBuf::from(st); let r: &str = t.as_ref(); r.to_string() }),
+                ("typed buf AsRef<[u8]>", { let t = Utf8TypedPathBuf::from(st); let r: &[u8] = t.as_ref(); String::from_utf8_lossy(r).into_owned() }),
+                ("typed AsRef<[u8]> (bytes)", { let t = TypedPath::derive(s.as_slice()); let r: &[u8] = t.as_ref(); String::from_utf8_lossy(r).into_owned() }),
+                ("typed buf AsRef<[u8]> (bytes)", { let t = TypedPathBuf::from(s.as_slice()); let r: &[u8] = t.as_ref(); String::from_utf8_lossy(r).into_owned() }),
+                ("typed iter AsRef<[u8]>", { let t = TypedPath::derive(s.as_slice()); let i = t.iter(); let r: &[u8] = i.as_ref(); String::from_utf8_lossy(r).into_owned() }),
+                ("typed components AsRef<[u8]>", { let t = TypedPath::derive(s.as_slice()); let i = t.components(); let r: &[u8] = i.as_ref(); String::from_utf8_lossy(r).into_owned() }),
+                ("utf8 typed iter AsRef<str>", { let t = Utf8TypedPath::derive(st); let i = t.iter(); let r: &str = i.as_ref(); r.to_string() }),
+                ("utf8 typed components AsRef<str>", { let t = Utf8TypedPath::derive(st); let i = t.components(); let r: &str = i.as_ref(); r.to_string() }),
             ];
+            // single components as references
+            for c in p.components() {
+                let a: &str = c.as_ref();
+                let b: &[u8] = c.as_ref();
+                let d: &Utf8UnixPath = c.as_ref();
+                if a != c.as_str() || b != c.as_str().as_bytes() || d.as_str() != c.as_str() {
+                    ctx.fail("utf8-conversion-keeps-bytes", None, format!("comps u {}", hex(s)), "component AsRef".into());
+                }
+            }
+            for c in Utf8WindowsPath::new(st).components() {
+                let a: &str = c.as_ref();
+                let b: &[u8] = c.as_ref();
+                let d: &Utf8WindowsPath = c.as_ref();
+                if a != c.as_str() || b != c.as_str().as_bytes() || d.as_str() != c.as_str() {
+                    ctx.fail("utf8-conversion-keeps-bytes", None, format!("comps w {}", hex(s)), "component AsRef".into());
+                }
+            }
+            for c in Utf8TypedPath::derive(st).components() {
+                let a: &str = c.as_ref();
+                let b: &[u8] = c.as_ref();
+                if a != c.as_str() || b != c.as_str().as_bytes() {
+                    ctx.fail("utf8-conversion-keeps-bytes", None, format!("comps u {}", hex(s)), "typed component AsRef".into());
+                }
+            }
+            for c in TypedPath::derive(s.as_slice()).components() {
+                let b: &[u8] = c.as_ref();
+                if b != c.as_bytes() {
+                    ctx.fail("conversion-keeps-bytes", None, format!("comps u {}", hex(s)), "typed component AsRef".into());
+                }
+            }
             for (name, o) in &outs {
                 ctx.evals += 1;
                 if o != st {
@@ -1440,6 +1553,71 @@ pub fn c19(ctx: &mut Ctx, tier: &str, _seed: u64) {
             if from_os.as_bytes() != s.as_slice() {
                 ctx.fail("osstring-conversion-keeps-bytes", None, format!("comps u {}", hex(s)), String::new());
             }
+            // single components <-> std::path::Component (Unix host), and into the UTF-8 component
+            let std_cs: Vec<std::path::Component> = std::path::Path::new(os).components().collect();
+            for (i, c) in UnixPath::new(s).components().enumerate() {
+                ctx.evals += 1;
+                let cvalid = std::str::from_utf8(c.as_bytes()).is_ok();
+                let to_std = std::path::Component::try_from(c);
+                // both directions go through `str`: Ok exactly for valid UTF-8, the original handed back otherwise
+                let back = std_cs.get(i).map(|sc| UnixComponent::try_from(*sc));
+                let to_u8 = Utf8UnixComponent::try_from(c);
+                let ok = match (&to_std, std_cs.get(i)) {
+                    (Ok(x), Some(y)) => cvalid && x == y,
+                    (Err(orig), _) => !cvalid && *orig == c,
+                    _ => false,
+                } && match (&back, std_cs.get(i)) {
+                    (Some(Ok(x)), _) => cvalid && *x == c,
+                    (Some(Err(orig)), Some(sc)) => !cvalid && orig == sc,
+                    _ => false,
+                }
+                    && match &to_u8 { Ok(u) => cvalid && u.as_str().as_bytes() == c.as_bytes(), Err(_) => !cvalid };
+                if !ok {
+                    ctx.fail("std-component-conversion", None, format!("comps u {}", hex(s)), format!("component {} -> {:?}", i, to_std));
+                }
+            }
+            if let Ok(st) = std::str::from_utf8(s) {
+                // UTF-8 owned forms as OsStr / OsString, and the UTF-8 platform path as a std path
+                let ub = Utf8UnixPathBuf::from(st);
+                let a: &OsStr = ub.as_ref();
+                let o: OsString = OsString::from(ub.clone());
+                let pp = Utf8PlatformPath::new(st);
+                let sp1: &std::path::Path = pp.as_ref();
+                let pb = pp.to_path_buf();
+                let sp2: &std::path::Path = pb.as_ref();
+                let sp3: std::path::PathBuf = std::path::PathBuf::from(pb.clone());
+                ctx.evals += 1;
+                if a.as_bytes() != s.as_slice() || o.as_bytes() != s.as_slice() || sp1.as_os_str().as_bytes() != s.as_slice()
+                    || sp2.as_os_str().as_bytes() != s.as_slice() || sp3.as_os_str().as_bytes() != s.as_slice() {
+                    ctx.fail("std-path-conversion-keeps-bytes", None, format!("comps u {}", hex(s)), "UTF-8 owned / platform forms".into());
+                }
+            }
+        }
+        // Display of the UTF-8 components, typed components and owned UTF-8 paths is their text
+        if let Ok(st) = std::str::from_utf8(s) {
+            ctx.evals += 1;
+            let mut ok = format!("{}", Utf8UnixPathBuf::from(st)) == st && format!("{}", Utf8TypedPath::derive(st)) == st && format!("{}", Utf8TypedPathBuf::from(st)) == st;
+            for c in Utf8UnixPath::new(st).components() {
+                ok = ok && format!("{}", c) == c.as_str();
+            }
+            for c in Utf8WindowsPath::new(st).components() {
+                ok = ok && format!("{}", c) == c.as_str();
+            }
+            for c in Utf8TypedPath::derive(st).components() {
+                ok = ok && format!("{}", c) == c.as_str();
+            }
+            if !ok {
+                ctx.fail("utf8-display", None, format!("comps u {}", hex(s)), "component / owned Display".into());
+            }
+        }
+    }
+    {
+        ctx.evals += 1;
+        let labels = [format!("{}", UnixEncoding), format!("{}", WindowsEncoding), format!("{}", Utf8UnixEncoding), format!("{}", Utf8WindowsEncoding), format!("{}", PlatformEncoding), format!("{}", Utf8PlatformEncoding)];
+        let errs = [format!("{}", CheckedPathError::InvalidFilename), format!("{}", CheckedPathError::PathTraversalAttack), format!("{}", CheckedPathError::UnexpectedPrefix), format!("{}", CheckedPathError::UnexpectedRoot), format!("{}", UnixPath::new("a").strip_prefix("b").unwrap_err())];
+        let distinct = |v: &[String]| v.iter().all(|x| !x.is_empty()) && (0..v.len()).all(|i| (0..i).all(|j| v[i] != v[j]));
+        if !distinct(&labels[..4]) || labels[4].is_empty() || labels[5].is_empty() || !distinct(&errs) {
+            ctx.fail("labels-and-error-messages", None, format!("comps u {}", hex(b"a")), format!("{:?} {:?}", labels, errs));
         }
     }
     ctx.sample(format!("comps u {}", hex(b"/a\xff")));
